@@ -272,6 +272,21 @@ impl<'a> CodeGenerator<'a> {
         }
     }
 
+    /// Sizes of the per-program mutable state (all zero on a fresh or
+    /// properly reset generator) and the size of the constant cache.
+    #[cfg(feature = "verif-hooks")]
+    pub fn verif_state(&self) -> [u64; 7] {
+        [
+            self.defined_functions.len() as u64,
+            self.code_gen_functions.len() as u64,
+            self.cyclic_functions.len() as u64,
+            self.special_functions.used_funcs.len() as u64,
+            self.interner.counter() as u64,
+            self.id_gen.current(),
+            self.cached_constants.len() as u64,
+        ]
+    }
+
     pub fn reset(&mut self, reset_special_functions: bool) {
         self.code_gen_functions = IndexMap::new();
         self.defined_functions = IndexMap::new();
